@@ -56,3 +56,8 @@ CASES += [
     m("rate kernel transforms the shared system-bath operators in place", "C15-E3", "quantarhei/qm/liouvillespace/rates/redfieldrates.py",
       "        KI = self.sbi.KK.copy()", "        KI = self.sbi.KK"),
 ]
+
+CASES += [
+    {"name": "tensor builder returns the stored tensor when only the theory matches", "kind": "mutant", "rule": "C15-E5", "edits": [
+        (O, "        from ..qm import LindbladForm\n\n        from ..core.managers import eigenbasis_of\n\n        if self._built:\n            ham = self.get_Hamiltonian()", "        from ..qm import LindbladForm\n\n        from ..core.managers import eigenbasis_of\n\n        if self._has_relaxation_tensor and relaxation_theory == getattr(self, \"_last_theory\", None):\n            return self.RelaxationTensor, self.RelaxationHamiltonian\n        self._last_theory = relaxation_theory\n        if self._built:\n            ham = self.get_Hamiltonian()", 1)]},
+]
